@@ -1633,9 +1633,16 @@ impl UdpListenerSession {
             .remove(&flow)
             .unwrap_or((self.address, None));
         // Drop the shadow flow-table entry if it still points at this flow.
-        let key = self.client_key(client);
-        if self.client_key_to_flow.get(&key) == Some(&flow) {
-            self.client_key_to_flow.remove(&key);
+        // It was inserted under the affinity in force when the flow was
+        // opened, which may have changed since (frontend removed, cluster
+        // updated or removed): look under both spellings of the key, or the
+        // entry of a flow opened with the port would never be released.
+        let mut portless = client;
+        portless.set_port(0);
+        for key in [client, portless] {
+            if self.client_key_to_flow.get(&key) == Some(&flow) {
+                self.client_key_to_flow.remove(&key);
+            }
         }
         // The shadow flow-table must no longer map THIS flow id. A surviving
         // entry would misroute a later established-flow `SendToBackend` onto a
